@@ -36,14 +36,14 @@ def rng_of(w, kind):
         return 2 ** (w - 3)
     if kind == 'npot':
         return 2 ** (w - 2) - 1
-    if kind == 'npot_above':          # needs w-1 bits + 1
-        return 2 ** (w - 3) + 1
+    if kind == 'npot_above':          # just above a power of two (needs one more bit); kept below 2**53 so that
+        return 2 ** min(w - 3, 50) + 1   # the declared range survives the reader's float conversion
     raise ValueError(kind)
 
 
 def int_rows(widths, n):
     rows = []
-    pats = ('ramp', 'ones', 'zero', 'high', 'a5', 'low1', '5a')
+    pats = ('ramp', 'ones', 'zero', 'high', 'a5', 'low1', '5a', 'bit50', 'bit47')
     for p in pats[:n] if n <= len(pats) else pats:
         row = []
         for w in widths:
@@ -60,6 +60,8 @@ def int_rows(widths, n):
                 v = int.from_bytes(b'\xa5' * nb, 'big')
             elif p == 'low1':
                 v = 1
+            elif p in ('bit50', 'bit47'):
+                v = (1 << int(p[3:])) % (2 ** w)
             else:
                 v = int.from_bytes(b'\x5a' * nb, 'big')
             row.append(v)
@@ -161,8 +163,6 @@ def cases(tier, seed):
         for rk in itertools.product(RKINDS + ('npot_above',), repeat=2):
             if rk[0] == rk[1] and rk[0] != 'npot_above':
                 continue
-            if 'npot_above' in rk and max(widths) > 48:
-                continue
             for bo in BYTEORDS[:2]:
                 yield dict(kind='int', widths=list(widths), byteord=bo, rk=list(rk))
     if tier == 'thorough':
@@ -174,7 +174,7 @@ def cases(tier, seed):
     # (B) deviation-bounded: remaining dimensions around representative base layouts
     dims = [('version', ['FCS3.0', 'FCS2.0', 'FCS3.1']),
             ('pad', [0, 3, 17]),
-            ('n', [5, 0, 1, 2, 7]),
+            ('n', [5, 0, 1, 2, 9]),
             ('delim', ['/', '|', '\x0c', '*']),
             ('end', ['last', 'onepast']),
             ('offsets', ['header', 'text']),
